@@ -95,6 +95,38 @@ def sibling(ctx) -> None:
             ctx.ok('R-SIBLING', minfo, f'matcher always descends into {k[6:]}', mfn)
 
 
+def membership(ctx) -> None:
+    """Matcher and parser decide "provisioned" by the same test - *key membership* in the advertised mapping: the matcher vetoes
+    with ``source not in self._sources``; the parser's resolve_source raises UnprovisionedError exactly on a missing key
+    (KeyError of the subscript, or an explicit membership test) - never on the *value* of the handle (a feed may map a source
+    to None or to any falsy native object, e.g. forml.testing's Feed advertises {DataSet: None})."""
+    prog = ctx.prog
+    rs = prog.func(f'{PARSER}:Visitor.resolve_source')
+    src_p = rs.param_names[1]
+    raises = [r for r in core.walk_local(rs.node) if isinstance(r, ast.Raise) and r.exc is not None and 'UnprovisionedError' in core.src(r.exc)]
+    ctx.floor('C09.membership', len(raises), 1)
+    for r in raises:
+        handler = next((a for a in core.ancestors(r) if isinstance(a, ast.ExceptHandler)), None)
+        ok = False
+        if handler is not None and handler.type is not None and core.src(handler.type) == 'KeyError':
+            tr = next((a for a in core.ancestors(handler) if isinstance(a, ast.Try)), None)
+            subs = [n for st in (tr.body if tr else []) for n in ast.walk(st) if isinstance(n, ast.Subscript) and core.src(n.value) == 'self._sources' and core.src(n.slice) == src_p]
+            others = [c for st in (tr.body if tr else []) for c in core.calls_in(st)]
+            ok = bool(subs) and not others  # the only KeyError source in the try body is the mapping subscript
+        else:
+            g = cfg.cguards(r, rs.node, siblings=True)
+            ok = g in ([(f'{src_p} in self._sources', False)], [(f'{src_p} not in self._sources', True)])
+        ctx.check(ok, 'C09.membership', rs, 'UnprovisionedError is raised exactly when the source is not a key of the mapping (membership, as in the matcher) - not depending on the mapped value', r, key='resolve_source:membership')
+    rets = [r for r in core.walk_local(rs.node) if isinstance(r, ast.Return)]
+    ctx.check(bool(rets) and all(core.src(r.value) == f'self._sources[{src_p}]' or (isinstance(r.value, ast.Name)) for r in rets), 'C09.membership', rs, 'the mapped handle is returned as it is', rs.node, key='resolve_source:return')
+    # no truthiness / None test on the looked-up handle anywhere in resolve_source
+    bad = [n for n in core.walk_local(rs.node) if isinstance(n, ast.Call) and isinstance(n.func, ast.Attribute) and n.func.attr == 'get' and core.src(n.func.value) == 'self._sources']
+    ctx.check(not bad, 'C09.membership', rs, 'resolve_source does not use a defaulting lookup (a None default is indistinguishable from a None handle)', bad[0] if bad else rs.node, key='resolve_source:no-get')
+    matcher = prog.cls(f'{INPUT}:Importer.Matcher')
+    mi = prog.func(f'{matcher.ref}.__init__')
+    ctx.check(any(core.src(n) in ("self._sources: frozenset['dsl.Source'] = frozenset(sources)", 'self._sources = frozenset(sources)') for n in core.walk_local(mi.node) if isinstance(n, (ast.Assign, ast.AnnAssign))), 'C09.membership', mi, 'the matcher tests membership in exactly the advertised sources (the keys of the feed mapping)', mi.node, key='matcher:sources')
+
+
 def priority(ctx) -> None:
     prog = ctx.prog
     imp = prog.cls(f'{INPUT}:Importer')
@@ -146,5 +178,6 @@ def priority(ctx) -> None:
 
 def run(ctx) -> None:
     sibling(ctx)
+    membership(ctx)
     priority(ctx)
     shared.argname_scope(ctx, ('forml.io._input', 'forml.setup._provider'), floor=2)
